@@ -110,3 +110,8 @@ UNITS.append(typehint_call_unit("C05"))
 
 from contracts.any_units import is_action_value_list_unit, parse_argv_item_unit  # noqa: E402
 UNITS += [parse_argv_item_unit("C05"), is_action_value_list_unit("C05")]
+
+# what one parse leaves in a context variable reaches only some channels of the next parse (parse_string / parse_path read previous_config):
+# every context manager restores its variable on every exit
+from contracts.ctxvars import standard_units as _ctx_units  # noqa: E402
+UNITS += _ctx_units("C05")
